@@ -687,7 +687,102 @@ class HealthAdapter(engine.Adapter):
         return c
 
 
+# ------------------------------------------------------------------------------------------------ fix timing, every class
+class FixAdapter(engine.Adapter):
+    """One instance of ONE software class of the run-time registries (c13.catalog) on a real Computer.  Events: the fix
+    request, an attack (health set to COMPROMISED), every lifecycle request of the class, node shutdown/start-up, step.
+    Oracle (clause (c) for software): a fix accepted in step t keeps the software FIXING until the ``fixing_duration``-th
+    following step of a node that is ON and returns it to GOOD exactly then - whatever its operating state does meanwhile."""
+
+    def __init__(self, sw_name, duration):
+        from . import c13
+
+        self.c13 = c13
+        self.sw = sw_name
+        self.d = duration
+        self.kind = c13.catalog()["items"][sw_name]["kind"]
+        self.name = "c14-fixall-%s-d%d" % (sw_name, duration)
+        verbs = [v for v in (c13.SVC_VERBS if self.kind == "service" else c13.APP_VERBS) if v not in ("fix", "scan")]
+        self._menu = [("tick",), ("req", "fix"), ("attack",)] + [("req", v) for v in verbs] + [("power",)]
+
+    def params(self):
+        return {"fixall": True, "software": self.sw, "duration": self.d}
+
+    def build(self):
+        c13 = self.c13
+        s = c13._mk_host_pair()
+        sm = s.host.software_manager
+        if self.sw not in sm.software:
+            sm.install(c13.catalog()["items"][self.sw]["cls"])
+            if self.kind == "application":
+                sm.software[self.sw].run()
+        s.item = sm.software[self.sw]
+        s.item.config.fixing_duration = self.d
+        s.left = None  # steps (node ON) until the accepted fix is due
+        s.start()
+        return s
+
+    def menu(self, s):
+        return self._menu
+
+    def label(self, ev):
+        return ev[0] if ev[0] != "req" else "req:" + ev[1]
+
+    def canon(self, s):
+        x = s.item
+        return (x.operating_state.name, x.health_state_actual.name, s.left, s.host.operating_state.name,
+                getattr(x, "restart_countdown", None), getattr(x, "install_countdown", None))
+
+    def apply(self, s, ev):
+        x = s.item
+        before = x.health_state_actual.name
+        on = s.host.operating_state.name == "ON"
+        viols = []
+        sig = "%s:%s" % (self.kind, self.sw)
+        if ev[0] == "tick":
+            s.tick()
+            out = "tick"
+            after = x.health_state_actual.name
+            if s.left is not None and on:
+                s.left -= 1
+                if s.left <= 0:
+                    s.left = None
+                    if after != "GOOD":
+                        viols.append(violation("fix_duration_exact", sig + ":not-completed:%s" % x.operating_state.name,
+                                               "%s %s (%s): the fix is due on this step (fixing_duration %d) but health is %s" % (
+                                                   self.kind, self.sw, x.operating_state.name, self.d, after)))
+                elif after != "FIXING":
+                    viols.append(violation("fix_duration_exact", sig + ":completed-early",
+                                           "%s %s: health %s with %d steps of the fix left" % (self.kind, self.sw, after, s.left)))
+            elif after != before and not (before == "FIXING" and s.left is None and not on):
+                viols.append(violation("true_health_changes_only_by_events", sig + ":step",
+                                       "%s %s: health %s -> %s in a step with no fix due" % (self.kind, self.sw, before, after)))
+        elif ev[0] == "attack":
+            ok = x.set_health_state(SoftwareHealthState.COMPROMISED)
+            out = "attack:%s" % bool(ok)
+            if x.health_state_actual.name != "FIXING":
+                s.left = None
+        elif ev[0] == "power":
+            verb = "shutdown" if on else "startup"
+            out = verb + ":" + s.node_req(self.c13.HOST, [verb]).status
+        else:
+            resp = s.sim.apply_request(self.c13.form_request(self.kind, self.sw, ev[1]))
+            out = "%s:%s" % (ev[1], resp.status)
+            after = x.health_state_actual.name
+            if ev[1] == "fix":
+                if resp.status == "success" and after == "FIXING" and s.left is None:
+                    s.left = max(self.d, 1)
+                elif resp.status == "success" and self.d == 0 and after == "GOOD":
+                    s.left = None  # a zero duration may complete with the request
+            elif after != before and not (before == "UNUSED" and after == "GOOD"):
+                viols.append(violation("true_health_changes_only_by_events", sig + ":" + ev[1],
+                                       "%s %s: request %s changed the health %s -> %s" % (self.kind, self.sw, ev[1], before, after)))
+        return [out, x.health_state_actual.name], viols
+
+
 def make_adapter(p):
+    if p.get("fixall"):
+        return FixAdapter(p["software"], p["duration"])
     return HealthAdapter(p["menu"], p["fix_svc"], p["fix_app"], p["dscan"], p["drest"], p["nscan"])
 
 
@@ -766,6 +861,13 @@ def run(tier, is_known):
         ad = HealthAdapter(menu, fs_, fa, ds, dr, n)
         engine._ADAPTERS[ad.name] = ad  # registered before the pool forks: one pool for all harnesses
         ads.append((ad, depth, budget, tb))
+    from . import c13
+
+    for nm in sorted(c13.catalog()["items"]):
+        for d in ((1, 2, 3) if tier == "thorough" else (2,)):
+            ad = FixAdapter(nm, d)
+            engine._ADAPTERS[ad.name] = ad
+            ads.append((ad, 6 if tier == "thorough" else 4, 200000, 120 if tier == "thorough" else 10))
     viols, per, samples, hist = [], [], [], {}
     tot = {"states": 0, "transitions": 0}
     outcomes = 0
@@ -829,6 +931,7 @@ ASSUMPTIONS = [
     "obs harness: the agent's view is the 'health_status' entry produced by the real observation classes configured with "
     "*_requires_scan=True from Simulation.describe_state() taken after apply_timestep and before the next pre_timestep "
     "(the order in PrimaiteGame.step); the first observation is taken before the first event",
-    "not explored: application install/uninstall, service stop/start/restart requests, OVERWHELMED (connection limit), "
+    "HealthAdapter does not explore application install/uninstall, service stop/start/restart requests (FixAdapter does, for the fix "
+    "timing of every registry class), OVERWHELMED (connection limit), "
     "attacks delivered over the network (data-manipulation / ransomware / DoS), folder delete, power durations > 0",
 ]
